@@ -541,6 +541,26 @@ class Evaluator:
                 return _NativeFn(getattr(obj, attr))
             if attr == "real":
                 return obj
+            if attr == "copy":
+                return _NativeFn(lambda *a, **k: _deepcopy(self, obj))
+            if attr == "size":
+                return len(obj.flat())
+            if attr == "sum":
+                return _NativeFn(lambda axis=None, **k: _b_sum(obj.flat()) if axis is None else _raise_undecided("array sum along an axis"))
+            if attr == "transpose":
+                return _NativeFn(lambda *a: obj.T if not a else _raise_undecided("transpose with axes"))
+            if attr == "dtype":
+                return OpaqueObj("dtype")
+            if attr == "fill":
+                def fill(v):
+                    def rec(d):
+                        for i, x in enumerate(d):
+                            if isinstance(x, list):
+                                rec(x)
+                            else:
+                                d[i] = v
+                    rec(obj.data)
+                return _NativeFn(fill)
             raise Undecided(f"array attribute {attr}")
         if isinstance(obj, Arr0):
             if attr == "ndim":
@@ -559,6 +579,15 @@ class Evaluator:
             raise Undecided(f"function attribute {attr}")
         if isinstance(obj, (Rat, Fraction, int)) and attr == "real":
             return obj
+        if isinstance(obj, _TypeProxy):
+            # dict.fromkeys, str.join, ... : class-level callables of the builtin types
+            try:
+                v = getattr(obj.pytype, attr)
+            except AttributeError:
+                raise Raised("AttributeError", f"type object '{obj.pytype.__name__}' has no attribute '{attr}'", node)
+            if attr == "fromkeys":
+                return _NativeFn(lambda it, value=None: obj.pytype.fromkeys(list(self.iterate(it)), value))
+            return _NativeFn(v) if callable(v) else v
         if isinstance(obj, (str, list, dict, tuple, set, range)):
             try:
                 return _NativeFn(getattr(obj, attr))
@@ -780,12 +809,36 @@ class Evaluator:
         try:
             if isinstance(fi.node, ast.Lambda):
                 return self.eval(fi.node.body, env)
+            if _is_generator(fi.node):
+                # generator function: folded eagerly (the values it yields, in order); exact for generators that are consumed
+                # completely and do not interleave side effects with their consumer
+                env.yielded = []
+                self.exec_block(fi.node.body, env)
+                return list(env.yielded)
             sig = self.exec_block(fi.node.body, env)
             if sig is not None and sig[0] == "return":
                 return sig[1]
             return None
         finally:
             self.depth -= 1
+
+    def e_Yield(self, n, env):
+        e = env
+        while e is not None and not hasattr(e, "yielded"):
+            e = getattr(e, "parent", None)
+        if e is None:
+            raise Undecided("yield outside a folded generator")
+        e.yielded.append(self.eval(n.value, env) if n.value is not None else None)
+        return None
+
+    def e_YieldFrom(self, n, env):
+        e = env
+        while e is not None and not hasattr(e, "yielded"):
+            e = getattr(e, "parent", None)
+        if e is None:
+            raise Undecided("yield from outside a folded generator")
+        e.yielded.extend(self.iterate(self.eval(n.value, env)))
+        return None
 
     def call_ext(self, f, args, kwargs, node):
         d = f.dotted
@@ -1532,6 +1585,28 @@ def _has_symbol(v, depth=0):
     return False
 
 
+def _is_generator(fn_node):
+    cached = getattr(fn_node, "_yadsa_is_gen", None)
+    if cached is not None:
+        return cached
+    found = False
+    todo = list(ast.iter_child_nodes(fn_node))
+    while todo:
+        n = todo.pop()
+        if isinstance(n, (ast.FunctionDef, ast.AsyncFunctionDef, ast.Lambda, ast.ClassDef)):
+            continue
+        if isinstance(n, (ast.Yield, ast.YieldFrom)):
+            found = True
+            break
+        todo.extend(ast.iter_child_nodes(n))
+    fn_node._yadsa_is_gen = found
+    return found
+
+
+def _raise_undecided(msg):
+    raise Undecided(msg)
+
+
 class WatchedWrite(Exception):
     """A watched (caller-owned) container was modified by the folded code."""
 
@@ -1793,7 +1868,66 @@ def _b_sorted(it, key=None, reverse=False):
     return sorted(items, key=key, reverse=reverse)
 
 
+_MISSING = object()
+
+
+def _b_getattr(obj, name, default=_MISSING):
+    ev = _ACTIVE[0]
+    if ev is None:
+        raise Undecided("getattr outside an evaluation")
+    try:
+        return ev.getattr(obj, name, None)
+    except Raised as r:
+        if r.etype == "AttributeError" and default is not _MISSING:
+            return default
+        raise
+    except Undecided:
+        raise
+
+
+def _b_hasattr(obj, name):
+    try:
+        _b_getattr(obj, name)
+        return True
+    except Raised as r:
+        if r.etype == "AttributeError":
+            return False
+        raise
+
+
+def _b_setattr(obj, name, value):
+    if isinstance(obj, ObjVal):
+        obj.attrs[name] = value
+        return None
+    raise Undecided(f"setattr on {type(obj).__name__}")
+
+
+def _b_next(it, default=_MISSING):
+    try:
+        return next(it)
+    except StopIteration:
+        if default is not _MISSING:
+            return default
+        raise Raised("StopIteration", "")
+    except TypeError:
+        raise Undecided("next() on a folded iterable")
+
+
 _BUILTINS = {
+    "getattr": _b_getattr,
+    "hasattr": _b_hasattr,
+    "setattr": _b_setattr,
+    "reversed": lambda it: list(reversed(list(_DUMMY.iterate(it)))),
+    "iter": lambda it: iter(list(_DUMMY.iterate(it))),
+    "next": _b_next,
+    "callable": lambda f: isinstance(f, (FuncVal, ClassVal, _NativeFn, ExtVal)) or callable(f),
+    "divmod": lambda a, b: divmod(a, b),
+    "pow": lambda a, b: _ACTIVE[0].binop(ast.Pow(), a, b),
+    "frozenset": lambda it=(): frozenset(_DUMMY.iterate(it)),
+    "ZeroDivisionError": ZeroDivisionError,
+    "StopIteration": StopIteration,
+    "OSError": OSError,
+    "FileNotFoundError": FileNotFoundError,
     "len": lambda x: _obj_len(x) if isinstance(x, ObjVal) else len(x.data) if isinstance(x, Arr) else len(x),
     "range": range,
     "enumerate": lambda it, start=0: list(enumerate(_DUMMY.iterate(it), start)),
